@@ -48,8 +48,12 @@ def main():
                                                    capture_output=True, text=True).stdout.strip(),
                        'check_cmd': './check %s --tier quick %s (VERIF_REPO=<worktree with patch applied>)' % (
                            meta['property'], ' '.join(extra))}
+                rj = os.path.join(sd, 'result.json')
+                if tests is None and os.environ.get('SEEDED_REUSE_TESTS') and os.path.exists(rj):
+                    # the patch is unchanged: keep the recorded suite result, refresh the check result
+                    res['tests'] = tests = json.load(open(rj)).get('tests')
                 if tests is not None:      # ad-hoc runs (no test suite) do not replace the record
-                    json.dump(res, open(os.path.join(sd, 'result.json'), 'w'), indent=1)
+                    json.dump(res, open(rj, 'w'), indent=1)
                 summary.append((mid, tests and tests['exit'], r.returncode))
                 print('%-34s tests_exit=%s check_exit=%s %s' % (mid, tests and tests['exit'], r.returncode,
                                                              (lines[:1] or [''])[0][:110]), flush=True)
